@@ -297,6 +297,8 @@ package vegeta
 
 //@ func (Decoder).Decode
 //@   inline
+//@ func (Encoder).Encode
+//@   inline
 
 // Rotation arithmetic: decoder k is tried at step rot(k, s, n) = (k - s) mod n of a call that starts at
 // sequence number s; the decoder tried at step t is the only one with rot == t.
@@ -308,6 +310,37 @@ package vegeta
 //@   forall s, t, n int :: n > 0 && s >= 0 && 0 <= t && t < n ==> s + t == n*ediv(s + t, n) + emod(s + t, n) && rot(emod(s + t, n), s, n) == t
 //@ lemma rot_injective property C13
 //@   forall a, b, s, n int :: n > 0 && s >= 0 && 0 <= a && a < n && 0 <= b && b < n && rot(a, s, n) == rot(b, s, n) ==> a == b
+
+// encoder constructors as seen by the commands: a usable Encoder (used through the Encoder type contract)
+//@ func NewEncoder
+//@   property C13
+//@   ensures result != nil
+//@ func NewCSVEncoder
+//@   property C13
+//@   ensures result != nil
+//@ func NewJSONEncoder
+//@   property C13
+//@   ensures result != nil
+
+// reporter constructors as seen by the report command (the Reporter is used through its type contract)
+//@ func NewHistogramReporter
+//@   property C13
+//@   ensures result != nil
+//@ func NewTextReporter
+//@   property C13
+//@   ensures result != nil
+//@ func NewJSONReporter
+//@   property C13
+//@   ensures result != nil
+//@ func NewHDRHistogramPlotReporter
+//@   property C13
+//@   ensures result != nil
+//@ func (Reporter).Report
+//@   inline
+
+// the constructor only captures its arguments: inlined into callers
+//@ func NewRoundRobinDecoder
+//@   inline
 
 //@ func NewRoundRobinDecoder$1
 //@   property C13 C16
@@ -321,12 +354,13 @@ package vegeta
 //@   ghost chosen int = -1
 //@   at call Decode: ghost chosen = (result == nil ? robin : chosen) ; apply rot_of_tried(old(seq), rangeindex, len(dec))
 //@   ensures [one-record-from-one-input] err == nil ==> 0 <= chosen && chosen < len(dec)
-//@              && (forall k int :: k == chosen ==> dpos(dec[k]) == old(dpos(dec[k])) + 1 && rec(r) == ditem(dec[k], old(dpos(dec[k]))))
+//@              && (forall k int :: k == chosen ==> dpos(dec[k]) == old(dpos(dec[k])) + 1
+//@                    && rec(r) == (old(zeroResult(r)) ? ditem(dec[k], old(dpos(dec[k]))) : stale(ditem(dec[k], old(dpos(dec[k]))), old(rec(r)))))
 //@   ensures [other-inputs-untouched] forall k int :: 0 <= k && k < len(dec) && !(err == nil && k == chosen) ==> dpos(dec[k]) == old(dpos(dec[k]))
 //@   ensures [end-only-when-all-exhausted] err != nil ==> (forall k int :: 0 <= k && k < len(dec) ==> old(dpos(dec[k])) == dlen(dec[k]))
 //@   loop 1
 //@     invariant -1 <= rangeindex && rangeindex < len(dec) && len(dec) == old(len(dec)) && seq == old(seq) + rangeindex + 1
-//@     invariant chosen == -1 && rec(r) == old(rec(r))
+//@     invariant chosen == -1 && rec(r) == old(rec(r)) && zeroResult(r) == old(zeroResult(r))
 //@     invariant forall k int :: 0 <= k && k < len(dec) ==> dec[k] == old(dec[k]) && dpos(dec[k]) == old(dpos(dec[k]))
 //@     invariant forall k int :: 0 <= k && k < len(dec) && rot(k, old(seq), len(dec)) <= rangeindex ==> old(dpos(dec[k])) == dlen(dec[k])
 //@     invariant rangeindex >= 0 ==> err != nil
@@ -891,6 +925,7 @@ package vegeta
 //@   at alloc buf: ghost rsrc(&buf) = ref(r) ; ghost rfrom(&buf) = consumed(r) ; ghost rto(&buf) = consumed(r) ; ghost teeof(&buf) = 0 ; ghost live(&buf) = false ; ghost rempty(&buf) = false
 //@   before call dec x2: assert [every-decoder-reads-from-the-first-record] rsrc(arg0) == ref(r) && rfrom(arg0) == start
 //@   ensures [nothing-lost-nothing-replayed] result != nil ==> rsrc(dreader(result)) == ref(r) && rfrom(dreader(result)) == start && rto(dreader(result)) == -1
+//@   ensures [decoder-at-its-first-record] result != nil ==> dpos(result) == 0 && dlen(result) >= 0
 //@   loop 1
 //@     invariant -1 <= rangeindex && rangeindex < 3 && r == old(r) && live(r) && rsrc(r) == ref(r)
 //@     invariant rsrc(&buf) == ref(r) && rfrom(&buf) == start && rto(&buf) == consumed(r) && !live(&buf) && !rempty(&buf) && (teeof(&buf) == 0 || teeof(&buf) == ref(r)) && consumed(r) >= start
